@@ -43,6 +43,19 @@ def validate_node(node: xml_utils.LxmlElement, xml_schema: etree.XMLSchema, logg
         raise ValidationError(reason='document invalid', soap_fault=fault) from ex
 
 
+def _refuse_doctype(root: xml_utils.LxmlElement):
+    """Refuse a document that carries a document type declaration.
+
+    resolve_entities=False keeps entity references in element content unexpanded, but libxml2 always substitutes
+    entities that are referenced in attribute values. A SOAP message must not contain a DTD (SOAP 1.2 part 1, section 5),
+    so a document with a DOCTYPE is not accepted at all.
+    """
+    doc_info = root.getroottree().docinfo
+    if doc_info.doctype or doc_info.internalDTD is not None or doc_info.externalDTD is not None:
+        msg = 'document type declarations are not accepted'
+        raise ValueError(msg)
+
+
 def _get_text(node: xml_utils.LxmlElement, q_name: etree.QName) -> str | None:
     if node is None:
         return None
@@ -141,6 +154,7 @@ class MessageReader:
         except etree.XMLSyntaxError as ex:
             self._logger.warning('Error reading response ex=%r xml=%s', ex, xml_text.decode('utf-8'))
             raise
+        _refuse_doctype(doc_root)
         if validate:
             self._validate_node(doc_root)
 
@@ -193,6 +207,7 @@ class MessageReader:
         except Exception as ex:
             print(f'load error "{ex}" in "{xml_text}"')
             raise
+        _refuse_doctype(node)
         self._validate_node(node)
         return node
 
@@ -265,4 +280,6 @@ class MessageReader:
     @staticmethod
     def read_wsdl(wsdl_text: bytes) -> etree.ElementTree:
         """Make am ElementTree instance."""
-        return etree.parse(BytesIO(wsdl_text), parser=etree.ETCompatXMLParser(resolve_entities=False))
+        tree = etree.parse(BytesIO(wsdl_text), parser=etree.ETCompatXMLParser(resolve_entities=False))
+        _refuse_doctype(tree.getroot())
+        return tree
